@@ -13,6 +13,17 @@
  *   IOX2_VERIF_COUNT     "s" (default): only state-changing calls are numbered; "so": observing
  *                        calls (fstat/read/access/stat/F_GETLK/opendir) are numbered as well
  *   IOX2_VERIF_KILL_AT   N: the process kills itself (SIGKILL) immediately BEFORE its N-th numbered call
+ *   IOX2_VERIF_FAIL_AT   N[:errno]: FAULT INJECTION - the N-th numbered call (same numbering as KILL_AT) is NOT
+ *                        performed and returns -1 (MAP_FAILED) with errno (default per call: EACCES for
+ *                        open/shm_open/mkdir/rename/bind, ENOSPC for write/ftruncate/truncate, EPERM for
+ *                        chmod/fchmod/fchown, ENOMEM for mmap, ENOLCK for fcntl locks/flock).  Calls that RELEASE
+ *                        something (close, unlink, remove, rmdir, shm_unlink) are never failed: if the N-th call is
+ *                        one of them it is performed normally.  Logged as {"k":"fault",...} before the "sys" record.
+ *                        The driver can (re-)arm the injection at run time through the exported function
+ *                        iox2_verif_ctl(op, a, b) (found with dlsym(RTLD_DEFAULT, ...)), see below.
+ *   IOX2_VERIF_SYSLOG_MAX bytes: the log is a ring - when it has grown beyond this size it is truncated to 0 and a
+ *                        {"k":"wrap","i":..} record is written ("i" keeps counting), so that a process spinning in a
+ *                        retry loop for ever cannot fill the disk (use with a PRIVATE log file only).
  *   IOX2_VERIF_STEP_FIFO path of a control FIFO; <path>.ack is the announce FIFO.  Before every numbered
  *                        call n >= IOX2_VERIF_STEP_FROM (default 1) the shim writes one JSON line to
  *                        the announce FIFO and blocks until it reads one byte from the control FIFO:
@@ -54,6 +65,12 @@ static int g_nroots;
 static int g_logfd = -1;
 static int g_ctlfd = -1, g_ackfd = -1;
 static long g_kill_at;
+static long g_fail_at;       /* absolute numbered index of the call to fail, 0 = disarmed */
+static int g_fail_errno;     /* 0 = the default of the call */
+static long g_faults;        /* faults injected since the last arming */
+static long g_fault_n;       /* numbered index of the last injected fault */
+static char g_fault_info[400];
+static long g_log_max, g_log_bytes;
 static long g_step_from = 1;
 static int g_stepping;
 static int g_count_obs;
@@ -112,6 +129,14 @@ static void init_once(void) {
     g_count_obs = (c && strchr(c, 'o')) ? 1 : 0;
     const char *k = getenv("IOX2_VERIF_KILL_AT");
     g_kill_at = k ? atol(k) : 0;
+    const char *fa = getenv("IOX2_VERIF_FAIL_AT");
+    if (fa && *fa) {
+        g_fail_at = atol(fa);
+        const char *colon = strchr(fa, ':');
+        g_fail_errno = colon ? atoi(colon + 1) : 0;
+    }
+    const char *lm = getenv("IOX2_VERIF_SYSLOG_MAX");
+    g_log_max = lm ? atol(lm) : 0;
     const char *sf = getenv("IOX2_VERIF_STEP_FROM");
     if (sf) g_step_from = atol(sf);
     const char *l = getenv("IOX2_VERIF_SYSLOG");
@@ -180,6 +205,8 @@ struct rec {
     const char *cmd, *lt, *rt;
     long rpid;
     long n, i;
+    int ferr; /* default errno of an injected failure; 0 = this call is never failed */
+    int fail; /* set by pre(): do not perform the call, return -1 with this errno */
 };
 
 static const char *ltype_name(int t) {
@@ -201,7 +228,23 @@ static size_t fmt_rec(char *buf, size_t cap, const char *kind, const struct rec 
     return (size_t)len;
 }
 
-/* Called before a handled call: numbering, kill injection, stepping.  Returns with g_mtx held. */
+static void log_write(const char *buf, size_t len) {
+    if (g_logfd < 0) return;
+    if (g_log_max > 0 && g_log_bytes + (long)len > g_log_max) {
+        syscall(SYS_ftruncate, g_logfd, 0L);
+        g_log_bytes = 0;
+        char w[160];
+        int k = snprintf(w, sizeof w, "{\"k\":\"wrap\",\"pid\":%ld,\"i\":%ld,\"n\":%ld}\n", (long)syscall(SYS_getpid), g_i, g_n);
+        if (k > 0) {
+            raw_write_all(g_logfd, w, (size_t)k);
+            g_log_bytes += k;
+        }
+    }
+    raw_write_all(g_logfd, buf, len);
+    g_log_bytes += (long)len;
+}
+
+/* Called before a handled call: numbering, kill / fault injection, stepping.  Returns with g_mtx held. */
 static void pre(struct rec *r) {
     pthread_mutex_lock(&g_mtx);
     r->i = ++g_i;
@@ -212,6 +255,13 @@ static void pre(struct rec *r) {
     if (g_kill_at > 0 && r->n == g_kill_at) {
         if (g_logfd >= 0) raw_write_all(g_logfd, buf, fmt_rec(buf, sizeof buf, "kill", r, 0, 0));
         die_now();
+    }
+    if (g_fail_at > 0 && r->n == g_fail_at && r->ferr) {
+        r->fail = g_fail_errno ? g_fail_errno : r->ferr;
+        g_faults++;
+        g_fault_n = r->n;
+        snprintf(g_fault_info, sizeof g_fault_info, "%s %d %.300s", r->call, r->fail, r->path ? r->path : "");
+        if (g_logfd >= 0) log_write(buf, fmt_rec(buf, sizeof buf, "fault", r, -1, r->fail));
     }
     if (g_stepping && r->n >= g_step_from) {
         raw_write_all(g_ackfd, buf, fmt_rec(buf, sizeof buf, "step", r, 0, 0));
@@ -233,10 +283,41 @@ static void pre(struct rec *r) {
 static void post(struct rec *r, long ret, int err) {
     if (g_logfd >= 0) {
         char buf[3000];
-        raw_write_all(g_logfd, buf, fmt_rec(buf, sizeof buf, "sys", r, ret, ret < 0 ? err : 0));
+        log_write(buf, fmt_rec(buf, sizeof buf, "sys", r, ret, ret < 0 ? err : 0));
     }
     pthread_mutex_unlock(&g_mtx);
     errno = err;
+}
+
+/*
+ * Run-time control for a driver that enumerates fault positions in ONE process:
+ *   op 0        -> current numbered count
+ *   op 1 (a, b) -> arm: fail the a-th numbered call FROM NOW (a >= 1) with errno b (0 = default); resets the
+ *                  fault counter; returns the current numbered count
+ *   op 2        -> number of faults injected since the last arming
+ *   op 3        -> disarm; returns the number of faults injected since the last arming
+ *   op 4 (a, b) -> copies "call errno path" of the last injected fault into the buffer a of size b; returns its
+ *                  numbered index
+ */
+long iox2_verif_ctl(int op, long a, long b) {
+    int nested = g_inside;
+    if (!nested) { g_inside = 1; init_once(); }
+    pthread_mutex_lock(&g_mtx);
+    long ret = -1;
+    switch (op) {
+    case 0: ret = g_n; break;
+    case 1: g_fail_at = g_n + a; g_fail_errno = (int)b; g_faults = 0; g_fault_info[0] = 0; ret = g_n; break;
+    case 2: ret = g_faults; break;
+    case 3: g_fail_at = 0; ret = g_faults; break;
+    case 4:
+        if (a && b > 0) snprintf((char *)a, (size_t)b, "%s", g_fault_info);
+        ret = g_fault_n;
+        break;
+    default: break;
+    }
+    pthread_mutex_unlock(&g_mtx);
+    if (!nested) g_inside = 0;
+    return ret;
 }
 
 #define REAL(name) \
@@ -258,9 +339,10 @@ static int do_open(const char *call, int (*fn)(const char *, int, ...), int (*fn
     ENTER();
     int ret;
     if (ACTIVE() && (dirfd == AT_FDCWD || (path && path[0] == '/')) && tracked_path(path)) {
-        struct rec r = {.call = call, .cls = 's', .path = path, .fd = -1, .flags = flags, .mode = (flags & (O_CREAT | O_TMPFILE)) ? (long)mode : 0};
+        struct rec r = {.call = call, .cls = 's', .path = path, .fd = -1, .flags = flags, .mode = (flags & (O_CREAT | O_TMPFILE)) ? (long)mode : 0, .ferr = EACCES};
         pre(&r);
-        ret = fn ? fn(path, flags, mode) : fnat(dirfd, path, flags, mode);
+        if (r.fail) { ret = -1; errno = r.fail; }
+        else ret = fn ? fn(path, flags, mode) : fnat(dirfd, path, flags, mode);
         int e = errno;
         if (ret >= 0) fd_set_path(ret, path);
         r.fd = ret;
@@ -328,9 +410,10 @@ int shm_open(const char *name, int flags, mode_t mode) {
     char p[1100];
     shm_path(p, sizeof p, name);
     if (ACTIVE() && tracked_path(p)) {
-        struct rec r = {.call = "shm_open", .cls = 's', .path = p, .fd = -1, .flags = flags, .mode = (flags & O_CREAT) ? (long)mode : 0};
+        struct rec r = {.call = "shm_open", .cls = 's', .path = p, .fd = -1, .flags = flags, .mode = (flags & O_CREAT) ? (long)mode : 0, .ferr = EACCES};
         pre(&r);
-        ret = real_shm_open(name, flags, mode);
+        if (r.fail) { ret = -1; errno = r.fail; }
+        else ret = real_shm_open(name, flags, mode);
         int e = errno;
         if (ret >= 0) fd_set_path(ret, p);
         r.fd = ret;
@@ -360,15 +443,16 @@ int shm_unlink(const char *name) {
     return ret;
 }
 
-#define PATH_CALL1(name, klass, ARGS, CALLARGS, flagsval, modeval) \
+#define PATH_CALL1(name, klass, ARGS, CALLARGS, flagsval, modeval, ferrval) \
     int name ARGS { \
         REAL(name); \
         ENTER(); \
         int ret; \
         if (ACTIVE() && tracked_path(path)) { \
-            struct rec r = {.call = #name, .cls = klass, .path = path, .fd = -1, .flags = (flagsval), .mode = (modeval)}; \
+            struct rec r = {.call = #name, .cls = klass, .path = path, .fd = -1, .flags = (flagsval), .mode = (modeval), .ferr = (ferrval)}; \
             pre(&r); \
-            ret = real_##name CALLARGS; \
+            if (r.fail) { ret = -1; errno = r.fail; } \
+            else ret = real_##name CALLARGS; \
             post(&r, ret, errno); \
         } else \
             ret = real_##name CALLARGS; \
@@ -376,13 +460,13 @@ int shm_unlink(const char *name) {
         return ret; \
     }
 
-PATH_CALL1(unlink, 's', (const char *path), (path), 0, 0)
-PATH_CALL1(remove, 's', (const char *path), (path), 0, 0)
-PATH_CALL1(rmdir, 's', (const char *path), (path), 0, 0)
-PATH_CALL1(mkdir, 's', (const char *path, mode_t mode), (path, mode), 0, (long)mode)
-PATH_CALL1(chmod, 's', (const char *path, mode_t mode), (path, mode), 0, (long)mode)
-PATH_CALL1(access, 'o', (const char *path, int amode), (path, amode), amode, 0)
-PATH_CALL1(truncate, 's', (const char *path, off_t len), (path, len), (long)len, 0)
+PATH_CALL1(unlink, 's', (const char *path), (path), 0, 0, 0)
+PATH_CALL1(remove, 's', (const char *path), (path), 0, 0, 0)
+PATH_CALL1(rmdir, 's', (const char *path), (path), 0, 0, 0)
+PATH_CALL1(mkdir, 's', (const char *path, mode_t mode), (path, mode), 0, (long)mode, EACCES)
+PATH_CALL1(chmod, 's', (const char *path, mode_t mode), (path, mode), 0, (long)mode, EPERM)
+PATH_CALL1(access, 'o', (const char *path, int amode), (path, amode), amode, 0, 0)
+PATH_CALL1(truncate, 's', (const char *path, off_t len), (path, len), (long)len, 0, ENOSPC)
 
 int unlinkat(int dirfd, const char *path, int flags) {
     REAL(unlinkat);
@@ -404,9 +488,10 @@ int mkdirat(int dirfd, const char *path, mode_t mode) {
     ENTER();
     int ret;
     if (ACTIVE() && (dirfd == AT_FDCWD || (path && path[0] == '/')) && tracked_path(path)) {
-        struct rec r = {.call = "mkdir", .cls = 's', .path = path, .fd = -1, .mode = (long)mode};
+        struct rec r = {.call = "mkdir", .cls = 's', .path = path, .fd = -1, .mode = (long)mode, .ferr = EACCES};
         pre(&r);
-        ret = real_mkdirat(dirfd, path, mode);
+        if (r.fail) { ret = -1; errno = r.fail; }
+        else ret = real_mkdirat(dirfd, path, mode);
         post(&r, ret, errno);
     } else
         ret = real_mkdirat(dirfd, path, mode);
@@ -421,9 +506,10 @@ int rename(const char *oldp, const char *newp) {
     if (ACTIVE() && (tracked_path(oldp) || tracked_path(newp))) {
         char both[2200];
         snprintf(both, sizeof both, "%s -> %s", oldp ? oldp : "", newp ? newp : "");
-        struct rec r = {.call = "rename", .cls = 's', .path = both, .fd = -1};
+        struct rec r = {.call = "rename", .cls = 's', .path = both, .fd = -1, .ferr = EACCES};
         pre(&r);
-        ret = real_rename(oldp, newp);
+        if (r.fail) { ret = -1; errno = r.fail; }
+        else ret = real_rename(oldp, newp);
         post(&r, ret, errno);
     } else
         ret = real_rename(oldp, newp);
@@ -509,9 +595,10 @@ int bind(int fd, const struct sockaddr *addr, socklen_t len) {
         p = pbuf;
     }
     if (ACTIVE() && p && tracked_path(p)) {
-        struct rec r = {.call = "bind", .cls = 's', .path = p, .fd = fd};
+        struct rec r = {.call = "bind", .cls = 's', .path = p, .fd = fd, .ferr = EACCES};
         pre(&r);
-        ret = real_bind(fd, addr, len);
+        if (r.fail) { ret = -1; errno = r.fail; }
+        else ret = real_bind(fd, addr, len);
         int e = errno;
         if (ret == 0) fd_set_path(fd, p);
         post(&r, ret, e);
@@ -561,16 +648,17 @@ int dup(int fd) {
     return ret;
 }
 
-#define FD_CALL(name, klass, ARGS, CALLARGS, flagsval, modeval) \
+#define FD_CALL(name, klass, ARGS, CALLARGS, flagsval, modeval, ferrval) \
     int name ARGS { \
         REAL(name); \
         ENTER(); \
         int ret; \
         const char *p = _nested ? NULL : fd_path(fd); \
         if (ACTIVE() && p) { \
-            struct rec r = {.call = #name, .cls = klass, .path = p, .fd = fd, .flags = (flagsval), .mode = (modeval)}; \
+            struct rec r = {.call = #name, .cls = klass, .path = p, .fd = fd, .flags = (flagsval), .mode = (modeval), .ferr = (ferrval)}; \
             pre(&r); \
-            ret = real_##name CALLARGS; \
+            if (r.fail) { ret = -1; errno = r.fail; } \
+            else ret = real_##name CALLARGS; \
             post(&r, ret, errno); \
         } else \
             ret = real_##name CALLARGS; \
@@ -578,10 +666,10 @@ int dup(int fd) {
         return ret; \
     }
 
-FD_CALL(ftruncate, 's', (int fd, off_t len), (fd, len), (long)len, 0)
-FD_CALL(fchmod, 's', (int fd, mode_t mode), (fd, mode), 0, (long)mode)
-FD_CALL(fchown, 's', (int fd, uid_t u, gid_t g), (fd, u, g), (long)u, (long)g)
-FD_CALL(flock, 's', (int fd, int op), (fd, op), op, 0)
+FD_CALL(ftruncate, 's', (int fd, off_t len), (fd, len), (long)len, 0, ENOSPC)
+FD_CALL(fchmod, 's', (int fd, mode_t mode), (fd, mode), 0, (long)mode, EPERM)
+FD_CALL(fchown, 's', (int fd, uid_t u, gid_t g), (fd, u, g), (long)u, (long)g, EPERM)
+FD_CALL(flock, 's', (int fd, int op), (fd, op), op, 0, ENOLCK)
 
 int ftruncate64(int fd, off64_t len) {
     REAL(ftruncate64);
@@ -589,9 +677,10 @@ int ftruncate64(int fd, off64_t len) {
     int ret;
     const char *p = _nested ? NULL : fd_path(fd);
     if (ACTIVE() && p) {
-        struct rec r = {.call = "ftruncate", .cls = 's', .path = p, .fd = fd, .flags = (long)len};
+        struct rec r = {.call = "ftruncate", .cls = 's', .path = p, .fd = fd, .flags = (long)len, .ferr = ENOSPC};
         pre(&r);
-        ret = real_ftruncate64(fd, len);
+        if (r.fail) { ret = -1; errno = r.fail; }
+        else ret = real_ftruncate64(fd, len);
         post(&r, ret, errno);
     } else
         ret = real_ftruncate64(fd, len);
@@ -641,9 +730,10 @@ ssize_t write(int fd, const void *buf, size_t len) {
     ssize_t ret;
     const char *p = _nested ? NULL : fd_path(fd);
     if (ACTIVE() && p) {
-        struct rec r = {.call = "write", .cls = 's', .path = p, .fd = fd, .flags = (long)len};
+        struct rec r = {.call = "write", .cls = 's', .path = p, .fd = fd, .flags = (long)len, .ferr = ENOSPC};
         pre(&r);
-        ret = real_write(fd, buf, len);
+        if (r.fail) { ret = -1; errno = r.fail; }
+        else ret = real_write(fd, buf, len);
         post(&r, (long)ret, errno);
     } else
         ret = real_write(fd, buf, len);
@@ -673,9 +763,10 @@ void *mmap(void *addr, size_t len, int prot, int flags, int fd, off_t off) {
     void *ret;
     const char *p = (_nested || fd < 0) ? NULL : fd_path(fd);
     if (ACTIVE() && p) {
-        struct rec r = {.call = "mmap", .cls = 's', .path = p, .fd = fd, .flags = (long)len, .mode = prot};
+        struct rec r = {.call = "mmap", .cls = 's', .path = p, .fd = fd, .flags = (long)len, .mode = prot, .ferr = ENOMEM};
         pre(&r);
-        ret = real_mmap(addr, len, prot, flags, fd, off);
+        if (r.fail) { ret = MAP_FAILED; errno = r.fail; }
+        else ret = real_mmap(addr, len, prot, flags, fd, off);
         int e = errno;
         post(&r, ret == MAP_FAILED ? -1 : 0, e);
     } else
@@ -690,9 +781,10 @@ void *mmap64(void *addr, size_t len, int prot, int flags, int fd, off64_t off) {
     void *ret;
     const char *p = (_nested || fd < 0) ? NULL : fd_path(fd);
     if (ACTIVE() && p) {
-        struct rec r = {.call = "mmap", .cls = 's', .path = p, .fd = fd, .flags = (long)len, .mode = prot};
+        struct rec r = {.call = "mmap", .cls = 's', .path = p, .fd = fd, .flags = (long)len, .mode = prot, .ferr = ENOMEM};
         pre(&r);
-        ret = real_mmap64(addr, len, prot, flags, fd, off);
+        if (r.fail) { ret = MAP_FAILED; errno = r.fail; }
+        else ret = real_mmap64(addr, len, prot, flags, fd, off);
         int e = errno;
         post(&r, ret == MAP_FAILED ? -1 : 0, e);
     } else
@@ -734,9 +826,10 @@ static int do_fcntl(int (*fn)(int, int, ...), int fd, int cmd, void *arg) {
                   || (cmd == F_OFD_GETLK)
 #endif
             ;
-        struct rec r = {.call = "fcntl", .cls = get ? 'o' : 's', .path = p, .fd = fd, .cmd = cmd_name(cmd), .lt = ltype_name(fl->l_type), .rt = ""};
+        struct rec r = {.call = "fcntl", .cls = get ? 'o' : 's', .path = p, .fd = fd, .cmd = cmd_name(cmd), .lt = ltype_name(fl->l_type), .rt = "", .ferr = (get || fl->l_type == F_UNLCK) ? 0 : ENOLCK};
         pre(&r);
-        ret = fn(fd, cmd, arg);
+        if (r.fail) { ret = -1; errno = r.fail; }
+        else ret = fn(fd, cmd, arg);
         int e = errno;
         if (get && ret == 0) {
             r.rt = ltype_name(fl->l_type);
